@@ -44,8 +44,8 @@ Definition chk nS nA P R av ab ini g V sol tch pi Qv ret iv N Vpi Vs W tl :=
   @c04_check Q NumQ (mk_mdp nS nA P R av ab ini g) (mk_lrout V sol tch pi Qv ret iv) (mk_cert N Vpi Vs W) tl.
 Definition ordf (l : list (list nat)) (s : nat) : list nat := nth s l [].
 Definition suppf (l : list (list (list nat))) (s a : nat) : list nat := nth a (nth s l []) [].
-Definition rpl nS nA P R av ab ini g eps ord tol h ops solI VI :=
-  @replay_check Q NumQ (mk_mdp nS nA P R av ab ini g) eps (ordf ord) tol h ops solI VI.
+Definition rpl nS nA P R av ab ini g eps ord tol h ops solI VI actI :=
+  @replay_check Q NumQ (mk_mdp nS nA P R av ab ini g) eps (ordf ord) tol h ops solI VI actI.
 Definition rdiag nS nA P R av ab ini g eps ord tol h ops :=
   @replay_diag Q NumQ (mk_mdp nS nA P R av ab ini g) eps (ordf ord) tol 0%nat
      (init_state (mk_mdp nS nA P R av ab ini g) h) ops.
@@ -74,6 +74,7 @@ Definition prd nS nA P R av ab ini g epsm epsl ord supp h calls :=
   pred_loop m epsm epsl (ordf ord) (suppf supp) (init_state m h) calls.
 """
 
+MARGIN_SIGS = ("returned-policy-exceeds-margin", "initial-value-exceeds-optimum-by-more-than-margin-times-steps")
 CLAUSES = ["lr_wfb", "c_initsolved", "c_solved", "c_greedy", "c_N", "c_vpi", "c_vstar", "c_w", "c_upper",
            "c_abs", "c_q", "c_init", "c_ret"]
 MARGINS = ["1/10", "1/100", "1/10000"]
@@ -198,7 +199,11 @@ def prepare(case, res):
     p.V = [vlib.frac(x) for x in res["V"]]
     p.solved, p.touched = res["solved"], res["touched"]
     p.live = [p.solved[s] and not p.absf[s] for s in range(n)]
-    p.pi = [int(res["greedy"].get(str(s), 0)) for s in range(n)]
+    # the action the planner RETURNS at a labelled state (recorded when it was labelled); the greedy
+    # action recomputed from the final table is only compared with it (coverage)
+    p.greedy = [res["greedy"].get(str(s)) for s in range(n)]
+    ra = res.get("returned_action") or [None] * n
+    p.pi = [int(ra[s]) if ra[s] is not None else int(p.greedy[s] or 0) for s in range(n)]
     p.iv = vlib.frac(res["initial_value"])
     livestates = [s for s in range(n) if p.live[s]]
     p.Vpi, p.N = policy_solve(p.P, p.R, p.absf, p.g, {s: {p.pi[s]: F(1)} for s in livestates}, livestates)
@@ -234,7 +239,9 @@ def chk_term(p, case, res):
     Qv = coqlist(coqlist(qopt(x) for x in row) for row in Qv)
     ret = [[p.ret[s].get(a, F(0)) for a in range(p.nA)] for s in range(p.n)]
     zero = [F(0)] * p.n
-    tl = "(mkLTol %s)" % " ".join(q(x) for x in [p.margin + p.tiny, p.tiny, p.tiny, p.tiny, p.tiny])
+    # greediness w.r.t. the FINAL table is only promised for monotone heuristics (C04_lrtdp_greedy_stable_partial)
+    tgre = p.tiny if p.mono_tol else F(10**6) * p.scale
+    tl = "(mkLTol %s)" % " ".join(q(x) for x in [p.margin + p.tiny, tgre, p.tiny, p.tiny, p.tiny])
     return "chk %s %s %s %s %s %s %s %s %s %s %s %s %s" % (
         mdp_term(p, case), qlist(p.V), blist(p.solved), blist(p.touched), natlist(p.pi), Qv, qmat(ret), q(p.iv),
         qlist(p.N or zero), qlist(p.Vpi or zero), qlist(p.Vs or zero), qlist(p.W or zero), tl)
@@ -310,8 +317,11 @@ def oracle(p, case, res):
     E = lambda f: sum(p.ini[s] * (F(0) if p.absf[s] else f[s]) for s in range(n))
     unsolved = [s for s in range(n) if p.ini[s] > 0 and not p.solved[s]]
     if unsolved:
-        # distinguish the zero-probability-initial-entry hang from a genuine non-termination
         out.append(("initial-state-not-labelled-within-trial-cap", {"states": unsolved, "trials": res["trials"]}))
+        for s in range(n):
+            if p.touched[s] and not p.absf[s] and p.V[s] < p.Vs[s] - p.tiny:
+                out.append(("value-estimate-below-optimal", {"state": s, "V": str(p.V[s]), "optimal": str(p.Vs[s])}))
+                break
         return out
     if res["trials"] >= case["iterations"]:
         zero = [s for s in range(n) if any(int(x) == s and F(pp) == 0 for x, pp in case["mdp"]["init"]) and not p.solved[s]]
@@ -349,14 +359,49 @@ def oracle(p, case, res):
     return out
 
 
+def regression_cases():
+    """fixed inputs on which msdm's LRTDP violated the property before the fix commits (must pass now,
+    must fire if a defect returns)"""
+    out = []
+    # 2bd631b: admissible NON-monotone heuristic; with seeds 3 and 9 a labelled state's greedy action
+    # recomputed from the final table differs from the one it was labelled with (props/C04.v:
+    # C04_recomputed_greedy_refuted is this instance)
+    mc = {"n": 8, "nA": 2, "actions": [[0], [0, 1], [0, 1], [0], [0], [0], [0], [0]],
+          "trans": {"0,0": [[1, "1"]], "1,0": [[7, "1"]], "1,1": [[3, "1"]], "2,0": [[3, "1/2"], [6, "1/2"]], "2,1": [[7, "1"]],
+                    "3,0": [[4, "1"]], "4,0": [[5, "1"]], "5,0": [[7, "1"]], "6,0": [[7, "1"]], "7,0": [[7, "1"]]},
+          "reward": {"1,0,7": "-10", "2,1,7": "-15", "5,0,7": "-20", "6,0,7": "-100"},
+          "absorbing": [False] * 7 + [True], "init": [[0, "1/2"], [2, "1/2"]], "gamma": "1"}
+    for seed in (3, 9):
+        out.append({"mdp": mc, "heuristic": ["-10", "-10", "-6", "-12", "-5", "-3", "0", "0"], "kind": "regression-nonmonotone",
+                    "margin": "1/100", "seed": seed, "randomize": False, "iterations": 4000, "max_log": 600})
+    # 9c7fbe1: a state labelled without ever being updated; junk heuristic at the absorbing state
+    mc2 = {"n": 5, "nA": 2, "actions": [[0], [0, 1], [0, 1], [0], [0]],
+           "trans": {"0,0": [[1, "1/2"], [2, "1/2"]], "1,0": [[3, "1"]], "1,1": [[4, "1"]], "2,0": [[3, "1"]], "2,1": [[4, "1"]],
+                     "3,0": [[4, "1"]], "4,0": [[4, "1"]]},
+           "reward": {"1,0,3": "-1", "2,0,3": "-1", "1,1,4": "-5", "2,1,4": "-5"},
+           "absorbing": [False, False, False, False, True], "init": [[0, "1"]], "gamma": "1"}
+    for seed in (0, 1):
+        out.append({"mdp": mc2, "heuristic": ["-1", "-1", "-1", "0", "40"], "kind": "regression-untouched-labelled",
+                    "margin": "1/100", "seed": seed, "randomize": False, "iterations": 4000, "max_log": 600})
+    # 939b5e0 / c174104: absorbing initial state with a non-zero heuristic; zero-probability initial entry
+    mc3 = {"n": 3, "nA": 1, "actions": [[0], [0], [0]],
+           "trans": {"0,0": [[2, "1"]], "1,0": [[2, "1"]], "2,0": [[2, "1"]]},
+           "reward": {"0,0,2": "-1", "1,0,2": "-1"},
+           "absorbing": [False, False, True], "init": [[0, "1/2"], [2, "1/2"], [1, "0"]], "gamma": "1"}
+    for seed in (0, 1, 3):
+        out.append({"mdp": mc3, "heuristic": ["-1", "0", "5"], "kind": "regression-absorbing-initial",
+                    "margin": "1/100", "seed": seed, "randomize": False, "iterations": 300, "max_log": 600})
+    return out
+
+
 # ---------------------------------------------------------------------------------------------
 def run(ctx):
     tier = ctx.tier
-    ncases = 150 if tier == "quick" else 2500
+    ncases = 240 if tier == "quick" else 2000
     if ctx.replay_case:
         cases = [ctx.replay_case["detail"]["case"]]
     else:
-        cases = [gen_case(ctx.rng, tier) for _ in range(ncases)]
+        cases = [gen_case(ctx.rng, tier) for _ in range(ncases)] + regression_cases()
     shards = min(ctx.jobs, 4 if tier == "quick" else 16)
     impl = ctx.impl("c04_impl.py", {"cases": cases}, shards=shards)["results"]
 
@@ -364,6 +409,7 @@ def run(ctx):
     cnt = {k: 0 for k in ["cases", "cert_checks", "replays", "replay_ops", "predictions", "predicted_calls",
                           "nonmonotone", "nonmonotone_cert_ok", "nonmonotone_cert_rejects", "nonadmissible_skipped",
                           "returned_policy_differs_from_labelled_greedy", "untouched_labelled_states",
+                          "recomputed_greedy_differs_from_recorded_action", "regression_cases",
                           "absorbing_initial_mass", "zero_prob_initial_entry", "converged_attr_missing",
                           "absorbing_untouched_reads_heuristic", "prediction_near_margin", "log_overflow",
                           "trials_total", "checks_failed_then_updated"]}
@@ -391,6 +437,9 @@ def run(ctx):
         cnt["absorbing_untouched_reads_heuristic"] += sum(1 for s in range(p.n) if p.absf[s] and not p.touched[s] and p.V[s] != 0)
         cnt["trials_total"] += res["trials"]
         cnt["nonmonotone"] += int(not p.mono_tol)
+        cnt["regression_cases"] += int(case["kind"].startswith("regression"))
+        cnt["recomputed_greedy_differs_from_recorded_action"] += int(any(
+            p.live[s] and p.greedy[s] is not None and int(p.greedy[s]) != p.pi[s] for s in range(p.n)))
         cnt["log_overflow"] += int(res["ops_overflow"])
         distinct.add(vlib.structural_hash([case["mdp"], case["heuristic"], case["margin"], case["seed"], case["randomize"]]))
         terms.append(chk_term(p, case, res))
@@ -402,7 +451,7 @@ def run(ctx):
             tol = q(F(1, 10**9))
             epsl = q(p.margin + p.tiny)
             opst = coqlist(op_term(o) for o in mops)
-            terms.append("rpl %s %s %s %s %s %s %s %s" % (mt, epsl, ordt, tol, qlist(p.h), opst, blist(p.solved), qlist(p.V)))
+            terms.append("rpl %s %s %s %s %s %s %s %s %s" % (mt, epsl, ordt, tol, qlist(p.h), opst, blist(p.solved), qlist(p.V), natlist(p.pi)))
             meta.append(("rpl", i))
             ncalls = sum(1 for o in res["ops"] if o[0] == "C")
             if ncalls:
@@ -420,8 +469,11 @@ def run(ctx):
             cnt["cert_checks"] += 1
             failed = [c for c, okv in zip(CLAUSES, v) if not okv]
             concrete = oracle(p, case, res)
+            # non-monotone admissible heuristics are inside the property's quantifier (gating); their
+            # margin violations get their own signature (cause: action recomputed from the final table)
+            pre = "C04:nonmonotone-admissible-heuristic:" if not p.mono_tol else "C04:"
             for sig, det in concrete:
-                ctx.violation("C04:" + sig, dict(base, failing_clause=det, failed_certificate_clauses=failed,
+                ctx.violation((pre if sig in MARGIN_SIGS else "C04:") + sig, dict(base, failing_clause=det, failed_certificate_clauses=failed, monotone_heuristic=p.mono_tol,
                                                  impl={k: res[k] for k in ("V", "solved", "touched", "greedy", "policy", "initial_value", "trials")}), found=True)
             if "c_ret" in failed:
                 cnt["returned_policy_differs_from_labelled_greedy"] += 1
@@ -429,14 +481,14 @@ def run(ctx):
                 cnt["nonmonotone_cert_ok" if not [c for c in failed if c != "c_ret"] else "nonmonotone_cert_rejects"] += 1
             hard = [c for c in failed if c != "c_ret"]
             if hard and not concrete:
-                ctx.violation("C04:certificate-rejects:" + "+".join(hard),
+                ctx.violation(pre + "certificate-rejects:" + "+".join(hard),
                               dict(base, failed_certificate_clauses=failed, monotone_heuristic=p.mono_tol,
                                    correspondence="model/LRTDP.v:c04_check (theorems props/C04.v) rejects the implementation's result",
                                    impl={k: res[k] for k in ("V", "solved", "touched", "greedy", "policy", "initial_value", "trials")}), found=False)
         elif kind == "rpl":
             cnt["replays"] += 1
             cnt["replay_ops"] += len(machine_ops(res["ops"]))
-            names = ["guards", "written-values", "final-labels", "final-values"]
+            names = ["guards", "written-values", "final-labels", "final-values", "recorded-actions"]
             failed = [nm for nm, okv in zip(names, v) if not okv]
             if failed:
                 ctx.violation("C04:trace-not-a-run-of-the-machine:" + "+".join(failed),
@@ -470,8 +522,9 @@ def run(ctx):
 
 
 def near_margin(p, res):
-    """does any residual computed during the run come within float distance of the margin?
-    (re-runs the log in Fractions on the implementation's own float values)"""
+    """does any residual the run may have compared with the margin come within float distance of it?
+    (replays the log in Fractions on the implementation's own float values; all actions are tried
+    because the greedy action itself may be a float tie)"""
     V = list(p.h)
     tol = F(1, 10**9) * p.scale
     for op in res["ops"]:
@@ -479,11 +532,7 @@ def near_margin(p, res):
             V[op[1]] = vlib.frac(op[2])
         elif op[0] == "C":
             for s in range(p.n):
-                if p.absf[s]:
-                    r = abs(V[s])
-                else:
-                    r = min(abs(abs(V[s] - lookahead(p.P, p.R, p.absf, p.g, V, s, a)) - p.margin) for a in range(p.nA) if p.av[s][a])
-                    r = min(r, abs(r))
-                if (not p.absf[s] and r <= tol) or (p.absf[s] and abs(r - p.margin) <= tol):
-                    return True
+                for a in range(p.nA):
+                    if p.av[s][a] and abs(abs(V[s] - lookahead(p.P, p.R, p.absf, p.g, V, s, a)) - p.margin) <= tol:
+                        return True
     return False
